@@ -5,6 +5,7 @@ mod checks;
 mod common;
 mod findings;
 mod ksim;
+mod tsim;
 mod lsim;
 mod mon;
 mod prng;
